@@ -447,9 +447,14 @@ impl<'a> Gen<'a> {
         }
         let spec = unit.fns.get(&path).cloned().unwrap_or_default();
         let mut fo = FnOut { path: path.clone(), src: src.to_string(), src_line, contract_only, from_unit: unit.name.clone(), hints: 0, hint_kinds: BTreeMap::new(), loops: 0, return_points: 0, probes: vec![], lowered_sites: 0, dead_probes: vec![] };
+        // free function whose first parameter is a shared reference to the struct owning a former cell: it becomes `&mut`
+        if !contract_only && tyname.is_none() && unit.refcell_mut_fns.contains(&path) {
+            if let Some(syn::FnArg::Typed(pt)) = sig.inputs.first_mut() { if let syn::Type::Reference(r) = &mut *pt.ty { if r.mutability.is_none() { r.mutability = Some(Default::default()); *self.rules.dropped.entry("R:param-mut".into()).or_default() += 1; } } }
+        }
         if !contract_only && (unit.refcell_mut_fns.contains(&path) || unit.refcell_mut_unless.iter().any(|(feat, f)| f == &path && !self.features.contains(feat))) { if let Some(syn::FnArg::Receiver(r)) = sig.inputs.first_mut() { *r = parse_quote!(&mut self); } }
         rules::sig_rules(sig, &mut self.rules);
         if contract_only {
+            rules::alpha_rename_sig(sig, &mut self.rules);
             *block = parse_quote!({ unimplemented!() });
         } else {
             rules::BodyRules { rules: &mut self.rules, unit, features: self.features, tyname: tyname.map(|s| s.to_string()), fnpath: path.clone() }.visit_block_mut(block);
@@ -706,10 +711,25 @@ fn main() {
     // the unit's own include order wins; includes of imported units that it does not list are appended
     for p in &unit.pre { if !pre.contains(p) { pre.push(p.clone()); } }
     for p in &unit.inside { if !inside.contains(p) { inside.push(p.clone()); } }
-    for imp in &unit.imports {
+    // imports are transitive (depth first, each unit once)
+    let mut todo: Vec<String> = vec![];
+    fn collect(base: &std::path::Path, imps: &[String], todo: &mut Vec<String>) {
+        for imp in imps {
+            if todo.contains(imp) { continue; }
+            let iu = spec::parse_unit(&std::fs::read_to_string(base.join(imp)).unwrap());
+            collect(base, &iu.imports, todo);
+            if !todo.contains(imp) { todo.push(imp.clone()); }
+        }
+    }
+    collect(base, &unit.imports, &mut todo);
+    // include order: the most derived importing unit lists the complete, correctly ordered set first
+    for imp in todo.iter().rev() {
         let iu = spec::parse_unit(&std::fs::read_to_string(base.join(imp)).unwrap());
         for p in &iu.pre { if !pre.contains(p) { pre.push(p.clone()); } }
         for p in &iu.inside { if !inside.contains(p) { inside.push(p.clone()); } }
+    }
+    for imp in &todo {
+        let iu = spec::parse_unit(&std::fs::read_to_string(base.join(imp)).unwrap());
         gen.take_unit(&iu, true);
     }
     gen.take_unit(&unit, false);
